@@ -42,7 +42,10 @@ TBool    == [k |-> "bool", lo |-> NONE, hi |-> NONE, name |-> ""]
 TI(l, h) == [k |-> "int",  lo |-> l, hi |-> h, name |-> ""]
 TR(l, h) == [k |-> "real", lo |-> l, hi |-> h, name |-> ""]
 TUser(n) == [k |-> "user", lo |-> NONE, hi |-> NONE, name |-> n]
-Z(n) == NV(n, 1)
+\* rationals are written in lowest terms (UPValues!NV is built on a RECURSIVE gcd, and TLC does not
+\* cache constant definitions that depend on recursive operators)
+Q(n, d) == [k |-> "n", n |-> n, d |-> d]
+Z(n) == Q(n, 1)
 
 \* the types of the case space, by name
 TypeNames  == <<"bool", "int03", "real", "real05", "T", "T1", "U", "int010">>
@@ -88,10 +91,11 @@ Parents     == TLCEval(TableOf(Decl.types, "parent"))
 ObjType(o)    == ObjTypes[o]
 FluentType(f) == FluentTypes[f]
 ParType(p)    == ParTypes[p]
-RECURSIVE IsSubR(_, _)
-IsSubR(a, b) == a = b \/ (Parents[a] # "" /\ IsSubR(Parents[a], b))
-SubPairs == TLCEval({p \in (DOMAIN Parents) \X (DOMAIN Parents) : IsSubR(p[1], p[2])})
-IsSub(a, b) == <<a, b>> \in SubPairs
+\* ancestors (reflexive) by bounded iteration; the ASSUME checks that the bound reaches the fixpoint
+Up(S) == S \cup {Parents[x] : x \in {y \in S : Parents[y] # ""}}
+Anc == TLCEval([a \in DOMAIN Parents |-> Up(Up(Up({a})))])
+ASSUME \A a \in DOMAIN Parents : Up(Anc[a]) = Anc[a]
+IsSub(a, b) == b \in Anc[a]
 
 IsConst(e) == e.op \in {"const", "obj"}
 ValOf(e) == IF e.op = "obj" THEN OV(e.name) ELSE e.v
@@ -106,7 +110,7 @@ TypeOfE(e) ==
 \* =========================================================================
 \* Declarative layer: value domains
 \* =========================================================================
-GridVals == TLCEval({BV(TRUE), BV(FALSE)} \cup {Z(i) : i \in 0..10} \cup {NV(7, 2), NV(1, 2)}
+GridVals == TLCEval({BV(TRUE), BV(FALSE)} \cup {Z(i) : i \in 0..10} \cup {Q(7, 2), Q(1, 2)}
                     \cup {OV(Decl.objects[i].name) : i \in DOMAIN Decl.objects})
 IsNumT(t) == t.k \in {"int", "real"}
 \* membership ignoring numeric bounds
@@ -191,9 +195,9 @@ Compat3(t, e, strict) ==
 Why(t, e, needconst) ==
    LET vt == TypeOfE(e) IN
    IF t.k = "user" /\ vt.k = "user" /\ ~IsSub(vt.name, t.name) THEN "usertype"
-   ELSE IF IsNumT(t) /\ IsNumT(vt) /\ ~(t.k = "int" /\ vt.k = "real") /\ ~Within(vt, t) THEN "bounds"
-   ELSE IF Compat3(t, e, TRUE) = "no" THEN "kind"
+   ELSE IF Compat3(t, e, FALSE) = "no" THEN "kind"
    ELSE IF needconst /\ ~IsConst(e) THEN "nonconst"
+   ELSE IF Compat3(t, e, FALSE) = "unspec" THEN "bounds"
    ELSE "compatible"
 
 TargetOf(s) == IF s.op \in {"new_problem", "instance"} THEN s.t ELSE FluentType(s.f)
